@@ -1,5 +1,6 @@
 import ServiceModel.Proofs.Reachable
 import ServiceModel.Proofs.Stable
+import ServiceModel.Proofs.RestartStable
 /-!
 # C13 — Earnings are accounted per provider and per owner and paid out exactly
 -/
@@ -130,5 +131,16 @@ theorem withdraw_address_changes_only_by_owner_message (s : State) (op : Op) (o 
     cases op with
     | setwd o' a => simp [Op.setsWithdrawOf] at hop; subst hop; exact ⟨a, rfl⟩
     | _ => simp [Op.setsWithdrawOf] at hop
+
+/-- The same over whole chains, restarts included: along every continuation of a chain by well-formed operations other
+    than `o`'s own withdraw-address message, and by any number of zero-height restarts, `o`'s withdrawal address is
+    what it was. -/
+theorem withdraw_address_survives_everything_but_owner_message (hc : CfgOK cfg p) (o : Addr) {s s' : State}
+    (hr : ReachableR cfg p h0 t0 s) (hcont : ContinuesR (fun op => op.setsWithdrawOf o = false) s s') :
+    Map.get s'.withdraw o = Map.get s.withdraw o := continuesR_withdraw_addr hc o hr hcont
+
+/-- The double bookkeeping of earnings holds in every state of a chain with restarts. -/
+theorem owner_earnings_are_sum_across_restarts (hc : CfgOK cfg p) {s : State} (hr : ReachableR cfg p h0 t0 s) (o : Addr) :
+    balOf s.ownerEarned o = ownedEarned s o := (reachableR_invAll hc hr).inv.m.ownerSum o
 
 end SM.C13
